@@ -127,4 +127,28 @@ def outAfter {T V : Type} (check : T → V → Bool) (thook : List (String × T)
     (k : String) : OutState T V :=
   (mergeValue check vhook (mergeType thook { key := k, type := none, value := none })).1
 
+/-! ## `Node.__init__` — the plumbing around the hooks
+
+`self.outputs = self._init_output_vars()` (one fresh Var per declared output, `out_variadic` of them
+for the variadic field, keyed `field` / `field_i`), `self.inference(infer_types, propagate_values)`
+(a hook that is switched off contributes `{}`), `if validate: self.validate_types()`. -/
+
+structure Flags where
+  inferTypes : Bool
+  propValues : Bool
+  validate : Bool
+  deriving Repr, DecidableEq
+
+/-- keys of the output Vars: `(field, isVariadic)` in declaration order -/
+def outKeysOf (decl : List (String × Bool)) (nvar : Nat) : List String :=
+  decl.flatMap fun d =>
+    if d.2 then (List.range nvar).map (fun i => d.1 ++ "_" ++ toString i) else [d.1]
+
+def construct {T V : Type} (check : T → V → Bool) (thook : List (String × T)) (vhook : List (String × V))
+    (fl : Flags) (level : Nat) (concrete : T → Bool) (inTypes : List (Option T))
+    (decl : List (String × Bool)) (nvar : Nat) : List (OutState T V) × List Warn :=
+  let r := inference check (if fl.inferTypes then thook else []) (if fl.propValues then vhook else [])
+    (freshOuts (outKeysOf decl nvar))
+  (r.1, r.2 ++ (if fl.validate then validateWarnings level concrete inTypes r.1 else []))
+
 end Custom
